@@ -166,7 +166,9 @@ def run(tier, replay=None):
             if d0 <= tol:
                 continue
             cause = None
-            for key, fid in (("v_nt", "F-C12-tailcut"), ("v_ns", "F-C12-screen"), ("v_nsnt", "F-C12-tailcut+F-C12-screen"), ("v_all", "F-C01-type1-abandon"), ("v_fq", "F-C12-closedform"), ("v_qd1", "F-C15-coincidence"), ("v_qd", "F-C15-premature")):
+            for key, fid in (("v_nt", "F-C12-tailcut"), ("v_ns", "F-C12-screen"), ("v_nsnt", "F-C12-tailcut+F-C12-screen"), ("v_all", "F-C01-type1-abandon"), ("v_fq", "F-C12-closedform"), ("v_qd1", "F-C15-coincidence"), ("v_qd", "F-C15-premature"),
+                             # two recorded findings at once (thorough tier, c570_424: one primitive loses its tail, another is accepted by coincidence)
+                             ("v_qd1nt", "F-C12-tailcut+F-C15-coincidence")):
                 if key in impl[cid] and dev(key) <= tol:
                     cause = fid; break
             if cause and all(f in active for f in cause.split("+")):
